@@ -120,6 +120,20 @@ claim("C20", "proof",
       "lengths up to INT_MAX/2.",
       "CBMC code contracts (DFCC): loop contracts with a ghost shadow automaton, enforced function contracts", "4/C20")
 
+claim("C19", "proof",
+      "In-process control logic of the tools, on the real application sources: safe_file_read/safe_file_write under enforced "
+      "contracts with loop contracts (unbounded in length and number of short/interrupted transfers) against POSIX "
+      "read()/write() contracts; encrypt_file/decrypt_file/generate_password with every I/O, random, KDF, SIV and AEAD step "
+      "allowed to fail at any call (chunk loops closed by loop contracts): success is returned only if nothing failed and the "
+      "tag verified, and on every failure the created output file is deleted; asconsum hash_file/check_file with stubbed "
+      "stdio: digest printed = digest computed by the selected algorithm over exactly the bytes read, OK exactly for "
+      "well-formed lines whose file was read and matches, non-zero result otherwise. Found and repaired: a failed or short "
+      "safe_file_write counted as success (D4).",
+      "NOT decided: the process level (main/exit status, unlink's effect, stderr), the file-format round trip and tamper "
+      "detection for every content (they rest on C01/C02/C06 for the library calls plus unverified framing code), readpass.c. "
+      "asconcrypt.c with BUFSIZ 48, asconsum.c with BUFSIZ 16 and 1-2 checksum lines up to 82 characters (labelled bounded).",
+      "CBMC code contracts (DFCC) on fileops.c; loop contracts in asconcrypt.c; plain assertions over the real asconsum.c with stdio stubs", "4/C19")
+
 claim("C15", "proof",
       "The real PRNG functions are executed symbolically from an arbitrary generator state with a stubbed system source "
       "(arbitrary bytes and health status), stubbed storage callbacks and specification stubs for the sponge: every "
@@ -166,7 +180,6 @@ claim("C06", "proof",
       "CBMC code contracts (DFCC): enforced function contracts with frames", "4/C06")
 
 NA_DEFAULT = {
-    "C19": "no contract-based check was built for the command-line tools' I/O error propagation (encrypt_file/decrypt_file/safe_file_read/write/hash_file/check_file with failing I/O stubs were designed, DESIGN 4/C19, but not implemented in the time available); only asconcrypt's file-name helpers are covered, under C12",
     "C11": "secret-independence of control flow and addresses is a relational (2-safety) property of the shipped object code; a CBMC contract describes one execution of the C source and has no taint or relational mode (DESIGN section 6)",
     "C17": "compilability of C++ members is a compiler verdict, and CBMC's C++ front end rejects this repository's C++ (DESIGN 2.8, section 6)",
     "C18": "eleven of twelve assembly targets are not C and 'byte-for-byte what the generator emits' / ELF flags are not proof obligations of a program verifier (DESIGN section 6)",
